@@ -636,14 +636,14 @@ def gen_hist(rng, n):
         for _s in range(rng.choice([4, 6, 8])):
             c = rng.random()
             if c < 0.5:
-                steps.append({"op": "draw", "obj": rng.randrange(nobj)})
+                steps.append({"op": "draw", "obj": rng.randrange(nobj), "second": rng.random() < 0.3, "cast": rng.random() < 0.2})
             elif c < 0.8:
                 steps.append({"op": rng.choice(["set_transform", "add_transform", "precompose_transform"]), "iso": rand_iso(rng)})
             else:
                 j = rng.randrange(nobj)
                 steps.append({"op": "edit", "obj": j, "pts": [ball_pt(rng, 0.8) for _ in objs[j]["pts"]]})
         steps.append({"op": "draw", "obj": rng.randrange(nobj)})
-        yield {"model": model, "objs": objs, "steps": steps}
+        yield {"model": model, "objs": objs, "steps": steps, "iso2": rand_iso(rng)}
 
 
 def _mk_obj(o):
@@ -675,21 +675,31 @@ def _read_last(d, kind, before):
 
 
 def run_hist(inp):
-    d = D.HyperbolicDrawing(model=inp["model"])
+    d1 = D.HyperbolicDrawing(model=inp["model"])
+    d2 = D.HyperbolicDrawing(model=inp["model"], transform=iso_matrix(inp.get("iso2")))     # an unrelated drawing (G3)
     objs = [_mk_obj(o) for o in inp["objs"]]
     cur = [np.array(o["pts"]) for o in inp["objs"]]
     out = []
+    isolation = 0.0
     try:
         for st in inp["steps"]:
             if st["op"] == "draw":
+                d = d2 if st.get("second") else d1
                 o, kind = objs[st["obj"]], inp["objs"][st["obj"]]["kind"]
+                if st.get("cast"):
+                    o = o.astype("float32")                       # the same object with another dtype (G4)
+                snap_o, snap_t = np.array(o.proj_data, copy=True), np.array(d.transform.proj_data, copy=True)
                 before = (len(d.ax.patches), len(d.ax.collections), len(d.ax.lines))
                 {"point": d.draw_point, "polygon": d.draw_polygon, "segment": d.draw_geodesic}[kind](o)
+                # G2: drawing leaves the object (projectively) and the transform (exactly) as they were
+                from vlib.canon import proj_close as _pc
+                if not _pc(np.asarray(o.proj_data, float), np.asarray(snap_o, float), 1e-6) or not np.array_equal(snap_t, d.transform.proj_data):
+                    isolation = 1.0
                 got = _read_last(d, kind, before)
                 Tm = np.asarray(d.transform.proj_data, float)
                 pr = apply_T(Tm, np.concatenate([np.ones((len(cur[st["obj"]]), 1)), cur[st["obj"]]], -1))
                 want = klein_to(inp["model"], pr[:, 1:] / pr[:, :1])
-                out.append({"kind": kind, "got": None if got is None else got.tolist(), "want": want.tolist()})
+                out.append({"kind": kind, "got": None if got is None else got.tolist(), "want": want.tolist(), "cast": bool(st.get("cast"))})
             elif st["op"] == "edit":
                 j = st["obj"]
                 new = np.concatenate([np.ones((len(st["pts"]), 1)), np.array(st["pts"])], -1)
@@ -698,23 +708,31 @@ def run_hist(inp):
                 objs[j].set(fresh.proj_data, aux_data=fresh.aux_data) if hasattr(objs[j], "set") else None
                 cur[j] = np.array(st["pts"])
             else:
-                getattr(d, st["op"])(iso_matrix(st["iso"]))
+                getattr(d1, st["op"])(iso_matrix(st["iso"]))
     finally:
-        plt.close(d.fig)
-    return {"draws": out}
+        plt.close(d1.fig)
+        plt.close(d2.fig)
+    return {"draws": out, "isolation": isolation}
 
 
 def judge_hist(inp, obs, lr):
     tags = {"model": inp["model"]}
     if "exc" in obs:
         return {"expected": "drawing history runs", "observed": obs, "tags": dict(tags, exc=obs["exc"])}
+    if obs.get("isolation"):
+        return {"expected": "drawing leaves the object and the drawing transform unchanged", "observed": "modified", "tags": dict(tags, what="isolation")}
     for i, dr in enumerate(obs["draws"]):
         if dr["got"] is None:
             return {"expected": "an artist for draw %d" % i, "observed": None, "tags": dict(tags, what="no artist", kind=dr["kind"])}
         got, want = np.array(dr["got"]), np.array(dr["want"])
         # every defining point (vertex / endpoint / point) is among the artist's points (arcs: either order)
         for w in want:
-            if np.min(np.linalg.norm(got - w, axis=1)) > 1e-4 * (1 + np.linalg.norm(w)) + (0.06 if inp["model"] == "halfspace" and dr["kind"] != "point" else 0):
+            # half-plane: above the radius threshold the edge is drawn as a vertical segment (the second endpoint moves by |dx|)
+            slack = float(np.max(np.abs(want[:, 0][:, None] - want[:, 0][None, :]))) if (inp["model"] == "halfspace" and dr["kind"] != "point") else 0.0
+            slack = slack if slack < 0.15 else 0.0
+            # a float32 copy has float32 ideal endpoints (half the digits after kleinian_to_poincare): 2e-2 there
+            rel = 2e-2 if dr.get("cast") else 1e-4
+            if np.min(np.linalg.norm(got - w, axis=1)) > rel * (1 + np.linalg.norm(w)) + slack:
                 return {"expected": {"draw": i, "points at": want.tolist()}, "observed": got.tolist()[:12],
                         "tags": dict(tags, what="history", kind=dr["kind"])}
     return None
